@@ -395,6 +395,18 @@ func runC11(c *core.Ctx) {
 			cases = append(cases, cli{chainBook(l, nil), n, "flag", cmds[0], fmt.Sprintf("chain %d limit %d via flag", l, n), false})
 		}
 	}
+	// the top of the chain is a recipe whose quoted name begins with the comment character ("#1 combo"): a heading
+	// like any other, wherever it is declared
+	for _, n := range []int{3, 4, 5, 10} {
+		for l := n - 1; l <= n+1; l++ {
+			for rep := 0; rep < 3; rep++ {
+				b := chainBook(l, nil)
+				b[0].Name = "#1 combo"
+				via := []string{"flag", "env", "config"}[rep]
+				cases = append(cases, cli{b, n, via, cmds[r.Intn(len(cmds))], fmt.Sprintf("chain %d limit %d via %s, top recipe \"#1 combo\"", l, n, via), false})
+			}
+		}
+	}
 	// limits and chains far beyond anything a person would type (a cap or a counter width hidden anywhere
 	// between the option and the resolver shows here): 1100, 10050 and 66000 references
 	for li, l := range []int{1100, 10050, 66000} {
